@@ -20,6 +20,7 @@ import (
 func init() {
 	schedProps["C06"] = func(s *Shared, tier string) { s.schedMain("C06", tier) }
 	schedProps["C05"] = func(s *Shared, tier string) { s.schedMain("C05", tier) }
+	schedProps["C04"] = func(s *Shared, tier string) { s.schedMain("C04", tier) }
 }
 
 // SchedCase is a scenario of a scheduler-explored property.
@@ -89,11 +90,40 @@ func c05Cases(tier string) []SchedCase {
 	return out
 }
 
+// c04Cases: fault scenarios that need a transport, several payloads or a second request.
+func c04Cases(tier string) []SchedCase {
+	var out []SchedCase
+	add := func(tr, q string, p Plan, yield bool) {
+		out = append(out, SchedCase{Case: Case{Op: Op{Text: q}, Plan: p, Yield: yield, Intercept: true}, Transport: tr, Name: tr + " " + q + " | " + p.Key()})
+	}
+	// serialization-time panic: only that response fails, with a well-formed error body,
+	// and the same server answers the next request
+	add("post2", `{t{boom name}}`, planOf("marshal:boom@t", "panic"), false)
+	add("post2", `{ts{boom}}`, planOf("marshal:boom@ts[1]", "panic"), false)
+	add("post2", `{t{name}}`, planOf("t.name", "panic"), false)
+	add("post2", `{argBoom(b:"x") str}`, planOf("unmarshal:x", "panic"), false)
+	// subscription events: a resolver below an event panics / errors
+	add("", `subscription{tick{id name}}`, planOf("tick.name", "panic"), true)
+	add("", `subscription{tick{id req}}`, planOf("tick.req", "error"), true)
+	add("", `subscription{tick{id name}}`, planOf("tick", "panic"), true)
+	// deferred groups
+	add("", `{t{id ... @defer{name req}}}`, planOf("t.name", "panic"), true)
+	add("", `{t{id ... @defer{kid{name}} ... @defer(label:"b"){req}}}`, planOf("t.kid.name", "panic", "t.req", "error"), true)
+	add("", `{ts{id ... @defer{name}}}`, planOf("ts[0].name", "panic", "ts[1].name", "panic"), true)
+	// concurrent siblings and list element goroutines panicking together
+	add("", `{t{name req kid{name}}}`, planOf("t.name", "panic", "t.kid.name", "panic"), true)
+	add("", `{ts{name req}}`, planOf("ts[0].req", "panic", "ts[1].name", "panic"), true)
+	add("", `{t{kids{name} kidsReq{req}}}`, planOf("t.kids[0].name", "panic", "t.kidsReq[1].req", "panic"), true)
+	add("", `{t{guarded name}}`, planOf("@t.guarded", "panic", "~t.name", "panic"), true)
+	return out
+}
+
 type schedInst struct {
 	*Inst
 	sc   SchedCase
 	prop string
 	rw   *rig.RW
+	rw2  *rig.RW
 	// response of transports
 	handlerDone bool
 }
@@ -117,8 +147,15 @@ func (si *schedInst) Body() {
 	req := httptest.NewRequest("POST", "/query", bytes.NewReader(body))
 	req.Header.Set("Content-Type", "application/json")
 	switch si.sc.Transport {
-	case "post":
+	case "post", "post2":
 		srv.AddTransport(transport.POST{})
+		srv.Use(FaultExt{Cur: func() *Env { return s.cur }})
+		srv.SetRecoverFunc(func(ctx context.Context, err any) error {
+			in.Env.mu.Lock()
+			in.Env.Panics++
+			in.Env.mu.Unlock()
+			return fmt.Errorf("PANIC:%v", err)
+		})
 	case "get":
 		srv.AddTransport(transport.GET{})
 		req = httptest.NewRequest("GET", "/query?query="+urlEscape(in.C.Op.Text), nil)
@@ -131,6 +168,15 @@ func (si *schedInst) Body() {
 	}
 	req = req.WithContext(ctx)
 	srv.ServeHTTP(si.rw, req)
+	if si.sc.Transport == "post2" {
+		// the process keeps serving: a second, fault-free request on the same server
+		in.Env.Plan = Plan{}
+		si.rw2 = rig.NewRW()
+		b2, _ := json.Marshal(map[string]any{"query": "{str}"})
+		r2 := httptest.NewRequest("POST", "/query", bytes.NewReader(b2)).WithContext(ctx)
+		r2.Header.Set("Content-Type", "application/json")
+		srv.ServeHTTP(si.rw2, r2)
+	}
 	in.Done = true
 	cancel() // net/http cancels the request context when the handler returns
 }
@@ -170,6 +216,117 @@ func (si *schedInst) Check(x *explore.Exec) (string, string) {
 		return "", ""
 	case "C05":
 		return si.checkTermination(x)
+	case "C04":
+		return si.checkFaultScenario(x)
+	}
+	return "", ""
+}
+
+// checkFaultScenario: containment of injected faults in transport / multi-payload scenarios.
+func (si *schedInst) checkFaultScenario(x *explore.Exec) (string, string) {
+	switch x.Out.Kind {
+	case "crash":
+		return "crash:" + firstLine(x.Out.CrashVal), x.Out.Crash
+	case "blocked":
+		return "hang", fmt.Sprintf("blocked: %v", x.Out.Blocked)
+	case "horizon":
+		return "horizon", "step horizon reached"
+	}
+	injected := 0
+	for _, o := range si.C.Plan {
+		if o == "panic" {
+			injected++
+		}
+	}
+	if si.sc.Transport == "post2" {
+		var body map[string]any
+		if err := json.Unmarshal(si.rw.Buf.Bytes(), &body); err != nil {
+			return "post:body-not-json", fmt.Sprintf("status %d body %q", si.rw.Status, si.rw.Buf.String())
+		}
+		errs, _ := body["errors"].([]any)
+		if len(errs) != 1 {
+			return "post:error-count", fmt.Sprintf("want exactly one error for one injected failure, got %d: %s", len(errs), si.rw.Buf.String())
+		}
+		if si.Env.Panics != injected {
+			return "recover-hook-count", fmt.Sprintf("recover hook ran %d times for %d injected panics", si.Env.Panics, injected)
+		}
+		for k := range si.C.Plan {
+			if strings.HasPrefix(k, "marshal:") && si.rw.Status != 422 {
+				return "post:marshal-panic-status", fmt.Sprintf("serialization-time panic answered with status %d: %s", si.rw.Status, si.rw.Buf.String())
+			}
+		}
+		var b2 struct {
+			Data   map[string]any `json:"data"`
+			Errors []any          `json:"errors"`
+		}
+		if err := json.Unmarshal(si.rw2.Buf.Bytes(), &b2); err != nil || si.rw2.Status != 200 || b2.Data["str"] != "str@" || len(b2.Errors) != 0 {
+			return "post:next-request-affected", fmt.Sprintf("second request on the same server: status %d body %s", si.rw2.Status, si.rw2.Buf.String())
+		}
+		return "", ""
+	}
+	// direct multi-payload scenarios: panics each recovered exactly once per occurrence, and each
+	// payload carries one error per failing position in it
+	nerr, npanicErr := 0, 0
+	for _, r := range si.Resp {
+		if r.Data == "" && len(r.Errors) > 0 {
+			// errors-only response (the operation failed before producing data)
+		} else if _, err := ParseOrdered(r.Data); err != nil {
+			return "payload-not-json", r.Data
+		}
+		for _, e := range r.Errors {
+			nerr++
+			if e.Kind == "panic" {
+				npanicErr++
+			}
+			if strings.HasPrefix(e.Kind, "other:") {
+				return "unexpected-error", fmt.Sprintf("%v", r.Msgs)
+			}
+		}
+	}
+	if si.Env.Panics != npanicErr {
+		return "recover-hook-count", fmt.Sprintf("recover hook ran %d times but %d panic errors were reported", si.Env.Panics, npanicErr)
+	}
+	if len(si.Resp) == 0 {
+		return "no-response", "operation produced no payload"
+	}
+	if si.Doc.Operations[0].Operation == "subscription" {
+		// every event is a separate response; a fault below an event fails only that position
+		for _, r := range si.Resp {
+			want := 0
+			for k, o := range si.C.Plan {
+				if o == "panic" || o == "error" {
+					_ = k
+					want++
+				}
+			}
+			if len(r.Errors) != want {
+				return "subscription-event-error-count", fmt.Sprintf("event %s has %d errors, want %d (%v)", r.Data, len(r.Errors), want, r.Msgs)
+			}
+		}
+		if si.C.Plan.Get("tick") == "value" && len(si.Resp) != 2 {
+			return "subscription-event-count", fmt.Sprintf("source emitted 2 events, %d responses", len(si.Resp))
+		}
+		for _, r := range si.Resp {
+			for _, e := range r.Errors {
+				if e.Path != "tick" && !strings.HasPrefix(e.Path, "tick.") {
+					return "subscription-error-path", fmt.Sprintf("error path %q is not beneath the subscription field: %v", e.Path, r.Msgs)
+				}
+			}
+		}
+		return "", ""
+	}
+	faults := 0
+	for _, o := range si.C.Plan {
+		if o == "panic" || o == "error" {
+			faults++
+		}
+	}
+	if nerr != faults {
+		var all []string
+		for _, r := range si.Resp {
+			all = append(all, r.Msgs...)
+		}
+		return "error-count", fmt.Sprintf("%d injected faults, %d errors reported: %v", faults, nerr, all)
 	}
 	return "", ""
 }
@@ -262,6 +419,8 @@ func (s *Shared) schedMain(prop, tier string) {
 		cases = c06Cases(tier)
 	case "C05":
 		cases = c05Cases(tier)
+	case "C04":
+		cases = c04Cases(tier)
 	}
 	explore.Main(explore.Options{
 		Prop:     prop,
@@ -274,6 +433,12 @@ func (s *Shared) schedMain(prop, tier string) {
 			}
 			if prop == "C05" {
 				b-- // cancellation is an extra event at every point
+			}
+			if prop == "C04" {
+				b = 1
+				if tier == "thorough" {
+					b = 2
+				}
 			}
 			return explore.Config{Bound: b, MaxSteps: 20000}
 		},
